@@ -109,6 +109,15 @@ func (gc *primaryGC) run(interval, timeLimit time.Duration) {
 // of storage reclaimed.
 func (gc *primaryGC) gc(ctx context.Context, lowUsePercent int64, timeLimit time.Duration) (int64, error) {
 	gc.reclaimed = 0
+
+	// The records named by the freelist must be in the primary files before
+	// they can be marked as deleted. A freelist entry for a record that is
+	// still in the write pool would be dropped, leaving the superseded record
+	// looking live once it is flushed.
+	if _, err := gc.primary.Flush(); err != nil {
+		return 0, fmt.Errorf("cannot flush primary: %w", err)
+	}
+
 	affectedSet, err := processFreeList(ctx, gc.freeList, gc.primary.basePath, gc.primary.maxFileSize)
 	if err != nil {
 		if err == context.DeadlineExceeded {
